@@ -1,7 +1,13 @@
 use std::mem;
 use std::ptr;
+#[cfg(not(feature = "multiqueue2_verif"))]
 use std::sync::atomic::{AtomicUsize, Ordering};
+#[cfg(feature = "multiqueue2_verif")]
+use crate::verif_hooks::{AtomicUsize, Ordering};
+#[cfg(not(feature = "multiqueue2_verif"))]
 use std::sync::Mutex;
+#[cfg(feature = "multiqueue2_verif")]
+use crate::verif_hooks::Mutex;
 
 use crate::alloc;
 use crate::atomicsignal::AtomicSignal;
@@ -181,3 +187,10 @@ impl Drop for MemoryManagerInner {
 }
 
 unsafe impl Send for ToFree {}
+
+// Verification hook (off by default): contracts and proof harnesses kept outside the repository.
+#[cfg(feature = "multiqueue2_verif")]
+#[allow(dead_code, unused_imports, unused_variables, unused_mut)]
+mod verif_contracts {
+    include!(concat!(env!("MULTIQUEUE2_VERIF_DIR"), "/memory.rs"));
+}
